@@ -1,4 +1,5 @@
 import Reclass.Props.C12
+import Reclass.Props.C12b
 open Reclass
 #print axioms Reclass.C12.fails_perm_invariant
 #print axioms Reclass.C12.nodes_perm
@@ -9,3 +10,14 @@ open Reclass
 #print axioms Reclass.C12.succeeds_perm_invariant
 #print axioms Reclass.C12.inventory_entry_eq_single
 #print axioms Reclass.C12.inventory_entry_unique
+#print axioms Reclass.C12.renderNode_indep_other_nodes
+#print axioms Reclass.C12.renderNode_indep_other_nodes'
+#print axioms Reclass.C12.renderNode_alone
+#print axioms Reclass.C12.renderNode_eq_instrumented
+#print axioms Reclass.C12.renderNode_indep_unreached_classes
+#print axioms Reclass.C12.renderNode_indep_added_classes
+#print axioms Reclass.C12.renderNode_indep_classes_outside
+#print axioms Reclass.C12.render_repeat
+#print axioms Reclass.C12.inventory_entry_indep
+#print axioms Reclass.C12.inventory_entry_indep_unreached
+#print axioms Reclass.C12.inventory_entry_indep_conv
